@@ -10,7 +10,7 @@ Template directives (lines starting with `//@`):
   //@ fn <name>
   //@ sig <expected signature, where-clause dropped, whitespace-normalised>
   //@ sub <regex> => <replacement>    unit-specific body rewrite (logged)
-  //@ loop <k>: <invariant/decreases clauses>  ghost clauses for the k-th loop of the body
+  //@ loop <k>: <invariant/decreases clauses>  ghost clauses for the k-th loop of the body (`loopopt`: skipped when an optional rewrite did not create the loop)
   //@ before <unique substring> :: <ghost text>   ghost text inserted before that statement line
   //@ after <unique substring> :: <ghost text>
   //@ cut_after <marker> :: <text> | cut_from <marker> :: <text>   drop the rest of the body after the marker / from the marker's line on
@@ -511,6 +511,11 @@ def rewrite_body(body, unit, log):
         braces = _find_loops(body)
         for k in sorted(unit['loops'], reverse=True):
             if k < 1 or k > len(braces):
+                if k in unit.get('loops_optional', ()):
+                    # the loop was introduced by an optional unit rewrite (`subopt`) that found nothing to rewrite on this tree:
+                    # its clauses have nowhere to go; the unit is verified as it stands (and fails if the contract needed the loop)
+                    log.append(f"LOOP-CLAUSES-SKIPPED in {unit['id']}: loop #{k} not present")
+                    continue
                 raise Undecided(f"unit {unit['id']}: loop #{k} not found ({len(braces)} loops) (lost anchor)")
             b = braces[k - 1]
             body = body[:b] + '\n' + unit['loops'][k] + '\n' + body[b:]
@@ -591,9 +596,11 @@ def _parse_lines(lines, path, out):  # list of ('text', str) | ('prelude', width
                         val += ' '
                     a, _, b = val.partition(' => ')
                     u['subs'].append((a, b, key == 'subopt'))
-                elif key == 'loop':
+                elif key in ('loop', 'loopopt'):
                     k, _, t = val.partition(':')
                     u['loops'][int(k)] = u['loops'].get(int(k), '') + t.strip() + '\n'
+                    if key == 'loopopt':
+                        u.setdefault('loops_optional', set()).add(int(k))
                 elif key in ('before', 'after'):
                     a, _, b = val.partition(' :: ')
                     u['inserts'].append((key, a, b))
